@@ -358,3 +358,34 @@ Theorem C09_three_invocations_equal_one :
              (snd (apply_series cfg db fresh (n1 + List.length seg2) rest fs3)).
 Proof. exact three_invocations_equal_one. Qed.
 Print Assumptions C09_three_invocations_equal_one.
+
+(* every split: consecutive invocations (chain: each starts with nothing in memory on the tree its predecessor left, at
+   the index it reached, applies its whole segment and meets the premises of C09_fresh_then_next), then a last
+   invocation over any rest - which may stop at a failing patch -, against the single push of everything: same final
+   index, same rejects, every name reading the same, the same statuses recorded by the last invocation *)
+Theorem C09_split_pushes_equal_one :
+  forall K dm cfg db fs segs fs_end n_end rest,
+    c_dry_run cfg = false -> chain K dm cfg db fs 0 segs fs_end n_end ->
+    series_in K db (List.concat segs ++ rest) ->
+    exists base,
+      ressim (sersim K dm fs fs_end base [])
+             (snd (apply_series cfg db fresh 0 (List.concat segs ++ rest) fs))
+             (snd (apply_series cfg db fresh n_end rest fs_end)).
+Proof. exact split_from_scratch. Qed.
+Print Assumptions C09_split_pushes_equal_one.
+
+(* non-vacuity: the invocation of C09_from_scratch_premises_met is a chain of length one *)
+Example C09_chain_exists :
+  chain c09s_K 420 c09_cfg c09s_db c09s_fs 0 [c09s_first] (fst (clean_all c09s_cl (fst c09s_saved))) 1.
+Proof.
+  destruct C09_from_scratch_premises_met as (Hd & Hw & Hrun & Hsz & Hsave & Hne & Hind & Hl & Ho & _).
+  eapply (ch_cons c09s_K 420 c09_cfg c09s_db c09s_fs 0%nat c09s_first [] c09s_st [] (fst c09s_saved) c09s_cl).
+  - exact Hrun.
+  - split; [exact Hd|]. split; [reflexivity|]. split; [exact Hw|]. split; [exact Hsz|]. split; [exact Hsave|].
+    split; [exact Hne|]. split; [|split; [exact Hl|exact Ho]].
+    assert (Hov : a_files c09s_st = [(b "f", {| content := split_lines (b ("a" ++ nl ++ "B" ++ nl)%string);
+                                                existed := true; deleted := false; perm := Some 33188%N |})])
+      by (vm_compute; reflexivity).
+    rewrite Hov. intros e e' [<-|[]] [<-|[]]. vm_compute. intros [].
+  - constructor.
+Qed.
